@@ -98,13 +98,17 @@ def gen_cases(tier: str, seed: int):
                "dict": r.random() < 0.25, "return_cursors": r.random() > 0.1, "fail_at": fail_at}
 
 
-PATTERNS = [r"^CALL\b", r"^CREATE\s+STAGE", r"^PUT\s", r"^ALTER\s+SESSION", r"^GRANT\b.*", r"^TRUNCATE", r"^INSERT\s+INTO\s+AUDIT", r"^select 'nop", r"^COPY INTO"]
+PATTERNS = [r"^CALL\b", r"^CREATE\s+STAGE", r"^PUT\s", r"^ALTER\s+SESSION", r"^GRANT\b.*", r"^TRUNCATE", r"^INSERT\s+INTO\s+AUDIT", r"^select 'nop", r"^COPY INTO",
+            # unanchored patterns still only match at the start of the statement
+            r"CALL", r"GRANT\s", r"STAGE", r"AUDIT", r"delete", r"T1", r"(?:PUT|GET)\s"]
 NOP_STMTS = [
     "CALL my_proc(1)", "call my_proc('x')", "CREATE STAGE s1", "create   stage s2 url='s3://x'", "PUT file:///tmp/x @s1", "ALTER SESSION SET X = 1",
     "GRANT ALL ON T1 TO ROLE r", "TRUNCATE TABLE T1", "truncate table T1", "INSERT INTO AUDIT VALUES (1)", "INSERT INTO T1 VALUES (5, 'five')",
     "insert into audit values (2)", "SELECT 'nop' AS X", "select 'nope'", "SELECT ID FROM T1 ORDER BY ID", " CALL leading_space()", "SELECT 1 -- CALL x",
     "DELETE FROM T1 WHERE ID = 1", "UPDATE T1 SET S = 'CALL' WHERE ID = 1", "COPY INTO T1 FROM @s1", "CREATE TABLE STAGE_T (ID INT)", "SELECT 'GRANT' AS X",
     "DROP TABLE T1", "INSERT INTO T1 VALUES (%s, %s)", "INSERT INTO AUDIT VALUES (%s)",
+    "SELECT 'please call me' AS X", "SELECT ID AS recall FROM T1 ORDER BY ID", "  call spaced()", "SELECT 'GRANT x' AS G", "INSERT INTO T1 VALUES (9, 'STAGE')",
+    "UPDATE T1 SET S = 'AUDIT' WHERE ID = 2", "SELECT COUNT(*) FROM T1", "GRANT SELECT ON T1 TO ROLE r", "delete from T1 where id = 2", "SELECT 'delete' AS D",
 ]
 
 
